@@ -157,3 +157,19 @@ def build_pyext(notes):
         notes.append("libpykmertools.so not produced"); return None
     shutil.copy(so, os.path.join(d, "pykmertools.so"))
     return d
+
+
+def coqchk(prop, notes):
+    """thorough tier: re-check the compiled property file and everything it depends on with the independent checker"""
+    import time
+    t0 = time.time()
+    r = sh(["coqchk", "-o", "-silent", "-Q", "theories", "KT", "KT.Properties.%s" % prop], cwd=COQ, timeout=2400)
+    out = r.stdout
+    axioms = set(a.strip().replace("Coq.Logic.", "").replace("Coq.Reals.", "") for a in re.findall(r"^\s{4}(\S+)\s*$", out.split("* Axioms:")[1].split("* Constants")[0], flags=re.M)) if "* Axioms:" in out else set()
+    clean = all(re.search(re.escape(k) + r":\s*<none>", out) for k in
+                ("relying on type-in-type", "relying on unsafe (co)fixpoints", "whose positivity is assumed"))
+    stray = axioms - ALLOWED_AXIOMS
+    ok = r.returncode == 0 and clean and not stray
+    notes.append("coqchk -o on Properties/%s.vo and its dependencies: exit %s, axioms %s, no type-in-type / unsafe fixpoints / assumed positivity: %s (%.0fs)"
+                 % (prop, r.returncode, sorted(axioms) or "none", clean, time.time() - t0))
+    return ok
